@@ -148,7 +148,8 @@ SizeLots == {<<n, k>> \in (1..MaxPkgs) \X (1..6) : k <= (IF n = 1 THEN 1 ELSE 2 
 
 Init == /\ kinds = <<>> /\ deps = {} /\ mods = {} /\ opened = <<>> /\ cur = 1
         /\ IF Sim THEN phase = "start" /\ npk = 0 /\ base = <<>> /\ scheme = 1
-                  ELSE phase = "pkgs" /\ npk \in 1..MaxPkgs /\ base \in Bases /\ scheme \in 1..NSchemes
+                  ELSE phase = "pkgs" /\ npk \in 1..MaxPkgs /\ base \in Bases
+                       /\ scheme \in (IF npk = 1 THEN {1} ELSE 1..NSchemes)   \* one package: its name is "app" anyway
 
 \* simulation only: draw the size and the location of the local packages
 Start == /\ phase = "start"
